@@ -276,13 +276,32 @@ func VerifGlobals() []VerifGlobal {
 // big.Int: the big-endian magnitude).
 func VerifWalk(c *Conversation, visit func(path string, b []byte)) {
 	seen := map[uintptr]bool{}
-	verifWalk(reflect.ValueOf(c), "c", visit, seen, 0)
+	verifWalk(reflect.ValueOf(c), "c", visit, seen, 0, false)
+}
+
+// VerifWalkAlias is VerifWalk handing out the memory itself instead of copies: byte
+// slices (up to their capacity) and addressable byte arrays as they are, a big.Int
+// as the bytes of its word slice up to its capacity (path suffixed "#words"; the
+// least significant word comes first). A caller can so watch a buffer after the
+// conversation has dropped it.
+func VerifWalkAlias(c *Conversation, visit func(path string, b []byte)) {
+	seen := map[uintptr]bool{}
+	verifWalk(reflect.ValueOf(c), "c", visit, seen, 0, true)
+}
+
+func verifBigWords(bi *big.Int) []byte {
+	bits := bi.Bits()
+	full := bits[:cap(bits)]
+	if len(full) == 0 {
+		return nil
+	}
+	return unsafe.Slice((*byte)(unsafe.Pointer(&full[0])), len(full)*int(unsafe.Sizeof(full[0])))
 }
 
 var verifBigIntType = reflect.TypeOf(big.Int{})
 var verifTimeType = reflect.TypeOf(time.Time{})
 
-func verifWalk(v reflect.Value, path string, visit func(string, []byte), seen map[uintptr]bool, depth int) {
+func verifWalk(v reflect.Value, path string, visit func(string, []byte), seen map[uintptr]bool, depth int, alias bool) {
 	if depth > 40 || !v.IsValid() {
 		return
 	}
@@ -298,6 +317,12 @@ func verifWalk(v reflect.Value, path string, visit func(string, []byte), seen ma
 		seen[p] = true
 		if v.Type().Elem() == verifBigIntType {
 			bi := (*big.Int)(v.UnsafePointer())
+			if alias {
+				if w := verifBigWords(bi); w != nil {
+					visit(path+"#words", w)
+				}
+				return
+			}
 			visit(path, bi.Bytes())
 			// also the spare capacity of the word slice
 			bits := bi.Bits()
@@ -307,12 +332,12 @@ func verifWalk(v reflect.Value, path string, visit func(string, []byte), seen ma
 			}
 			return
 		}
-		verifWalk(v.Elem(), path, visit, seen, depth+1)
+		verifWalk(v.Elem(), path, visit, seen, depth+1, alias)
 	case reflect.Interface:
 		if v.IsNil() {
 			return
 		}
-		verifWalk(v.Elem(), path, visit, seen, depth+1)
+		verifWalk(v.Elem(), path, visit, seen, depth+1, alias)
 	case reflect.Struct:
 		if v.Type() == verifTimeType {
 			return
@@ -320,6 +345,12 @@ func verifWalk(v reflect.Value, path string, visit func(string, []byte), seen ma
 		if v.Type() == verifBigIntType {
 			if v.CanAddr() {
 				bi := (*big.Int)(unsafe.Pointer(v.UnsafeAddr()))
+				if alias {
+					if w := verifBigWords(bi); w != nil {
+						visit(path+"#words", w)
+					}
+					return
+				}
 				visit(path, bi.Bytes())
 			}
 			return
@@ -334,7 +365,7 @@ func verifWalk(v reflect.Value, path string, visit func(string, []byte), seen ma
 			if f.CanAddr() {
 				f = reflect.NewAt(f.Type(), unsafe.Pointer(f.UnsafeAddr())).Elem()
 			}
-			verifWalk(f, path+"."+name, visit, seen, depth+1)
+			verifWalk(f, path+"."+name, visit, seen, depth+1, alias)
 		}
 	case reflect.Slice:
 		if v.IsNil() {
@@ -343,6 +374,10 @@ func verifWalk(v reflect.Value, path string, visit func(string, []byte), seen ma
 		if v.Type().Elem().Kind() == reflect.Uint8 {
 			n := v.Cap()
 			if n > 0 {
+				if alias {
+					visit(path, unsafe.Slice((*byte)(v.UnsafePointer()), n))
+					return
+				}
 				b := append([]byte{}, unsafe.Slice((*byte)(v.UnsafePointer()), n)...)
 				visit(path, b)
 			}
@@ -354,10 +389,16 @@ func verifWalk(v reflect.Value, path string, visit func(string, []byte), seen ma
 			full = v.Slice3(0, n, n)
 		}
 		for i := 0; i < full.Len(); i++ {
-			verifWalk(full.Index(i), path+"[]", visit, seen, depth+1)
+			verifWalk(full.Index(i), path+"[]", visit, seen, depth+1, alias)
 		}
 	case reflect.Array:
 		if v.Type().Elem().Kind() == reflect.Uint8 {
+			if alias {
+				if v.CanAddr() && v.Len() > 0 {
+					visit(path, unsafe.Slice((*byte)(unsafe.Pointer(v.UnsafeAddr())), v.Len()))
+				}
+				return
+			}
 			b := make([]byte, v.Len())
 			for i := range b {
 				b[i] = byte(v.Index(i).Uint())
@@ -366,13 +407,13 @@ func verifWalk(v reflect.Value, path string, visit func(string, []byte), seen ma
 			return
 		}
 		for i := 0; i < v.Len(); i++ {
-			verifWalk(v.Index(i), path+"[]", visit, seen, depth+1)
+			verifWalk(v.Index(i), path+"[]", visit, seen, depth+1, alias)
 		}
 	case reflect.String:
 		visit(path, []byte(v.String()))
 	case reflect.Map:
 		for _, k := range v.MapKeys() {
-			verifWalk(v.MapIndex(k), path+"{}", visit, seen, depth+1)
+			verifWalk(v.MapIndex(k), path+"{}", visit, seen, depth+1, alias)
 		}
 	}
 }
